@@ -77,3 +77,9 @@ addfile("KF8","C03","open","content-never-written",
 addfile("F40","C17","fixed","member-size-after-member-calls",
     "Chmod/Chown/Chtimes of an original member of a foreign tar archive: the metadata-only record has tar size 0 and the member's header carries no STFS.UncompressedSize record to inherit, so the index held size 0 afterwards (Stat reports an empty file, the next append drops the content); noticed by a sub-agent while probing, then reproduced by C17 once it compared reported sizes",
     commit="changing the attributes of an entry that was not written by STFS keeps its size")
+addfile("F41","C03","fixed","archive-fails",
+    "batched Operations.Archive from a source that implements io.WriterTo (bytes.Reader, strings.Reader, bytes.Buffer) under PGP encryption + a signature format + no compression, content larger than 32 KiB: the size pass reads through the signer in 32 KiB chunks, the write pass handed the source over in one Write; the OpenPGP stream length depends on the chunking: 'archive/tar: missed writing 2 bytes' / 'write too long' and a torn record (side remark of a sub-agent, reproduced once C03's sources implemented io.WriterTo)",
+    commit="archiving from a source that implements io.WriterTo no longer fails")
+addfile("F42","C11","fixed","hang",
+    "parallelgzip: two callers read /t (one record) with a buffer of exactly its size and keep their handles open while a third calls Stat: pgzip's WriterTo ends with an empty write, an empty write to the read path's pipe parks the restore (drive + read lock held) although every byte has been delivered; the next call that needs the drive deadlocks the instance (found when the readers template started to read exact sizes, prompted by seeded change S-C11g)",
+    commit="a file that has been read to its last byte no longer keeps the drive")
